@@ -45,6 +45,20 @@ def task_species():
             sub = Substance.from_formula(f)
             if (sub.latex_name, sub.unicode_name, sub.html_name) != (formula_to_latex(f), formula_to_unicode(f), formula_to_html(f)):
                 bad.append("%s names" % f)
+    ph = {"(aq)": 0, "(s)": 1, "(g)": 2}
+    for f, idx in (("Ca+2(aq)", 0), ("CaCO3(s)", 1), ("CO2(g)", 2), ("CO2", -1)):
+        got = Species.from_formula(f, phases=ph, default_phase_idx=-1).phase_idx
+        if got != idx:
+            bad.append("%s with phases=%s default -1: phase_idx %s" % (f, ph, got))
+    from chempy import Reaction, Equilibrium
+    subs = {k: Substance.from_formula(k) for k in ("H2O2", "O2", "H2O", "SO2", "SO3")}
+    r = Reaction({"H2O2": 1}, {"O2": 0.5, "H2O": 1}, checks=())
+    e = Equilibrium({"SO2": 1, "O2": 0.5}, {"SO3": 1}, checks=())
+    for got, exp in ((r.unicode(subs), "H₂O₂ → H₂O + 0.5 O₂"), (r.latex(subs), "H_{2}O_{2} \\rightarrow H_{2}O + 0.5 O_{2}"),
+                     (r.html(subs), "H<sub>2</sub>O<sub>2</sub> &rarr; H<sub>2</sub>O + 0.5 O<sub>2</sub>"), (e.unicode(subs), "0.5 O₂ + SO₂ ⇌ SO₃"),
+                     (str(r), "H2O2 -> H2O + 0.5 O2")):
+        if got != exp:
+            bad.append("fractional coefficient printed as %r, expected %r" % (got, exp))
     for f, exp in (("{(H2O)2OH}12", "\\{(H_{2}O)_{2}OH\\}_{12}"), ("Fe{CN}6-3", "Fe\\{CN\\}_{6}^{3-}"), ("{Li@C60}+", "\\{Li@C_{60}\\}^{+}")):
         if formula_to_latex(f) != exp:
             bad.append("latex braces %s -> %s" % (f, formula_to_latex(f)))
